@@ -130,10 +130,11 @@ impl<'a> From<&'a str> for DynErr { #[verifier::external_body] fn from(e: &'a st
 pub trait RestartStrategy<A: Actor> {
     spec fn kind() -> Kind;
     fn refresh(actor: A, ctx: &mut Context<A>, Tracked(w): Tracked<&mut World>) -> (r: DynResult<A>)
-        requires old(w).lc.ph is Running, old(w).lc.restart_pending, old(w).lc.pending is None, old(w).lc.gid == actor.gid(),   // @ob refresh.pre C07
+        requires old(w).lc.ph is Running, old(w).lc.restart_pending, old(w).lc.pending is None, old(w).lc.gid == actor.gid(),   // @ob refresh.pre C07,C01,C11,C17,C03
         ensures
             ctx_stable(old(ctx), final(ctx)),                                                                                   // @ob refresh.a-restart-releases-no-child-and-keeps-the-links C16,C15,C05,C07,C09
-            Self::kind() is Ignore ==> r is Ok && r->Ok_0.gid() == actor.gid() && same_world(old(w), final(w)),                 // @ob refresh.nonrestartable-ignores C07
+            Self::kind() is Ignore ==> r is Ok && r->Ok_0.gid() == actor.gid() && *final(w) == (World { lc: Lc { restart_pending: false, ..old(w).lc }, ..*old(w) }),   // @ob refresh.nonrestartable-ignores C07
+            r is Ok ==> !final(w).lc.restart_pending,                                                                             // @ob refresh.the-request-is-taken-note-of C07
             !(Self::kind() is Ignore) ==> (r is Ok ==> final(w).lc.ph is Running && final(w).lc.pending is None && final(w).lc.gid == r->Ok_0.gid()
                     && final(w).lc.stream == old(w).lc.stream && final(w).lc.run_slot == old(w).lc.run_slot && final(w).lc.inc == old(w).lc.inc + 1 && final(w).cfg_timeout == old(w).cfg_timeout),   // @ob refresh.new-incarnation-started C07,C03,C17,C02,C04,C06
             !(Self::kind() is Ignore) ==> (r is Ok ==> final(w).lc.timers_live),                                                   // @ob refresh.timers-of-the-new-incarnation-are-left-alone C15,C10,C07
@@ -142,3 +143,26 @@ pub trait RestartStrategy<A: Actor> {
             Self::kind() is Fresh ==> (r is Ok ==> final(w).lc.recreated == old(w).lc.recreated + 1),                            // @ob refresh.recreate-uses-default C07
     ;
 }
+// an explicit `drop(self.payload_stream)` inside the loop future (rule D5x): from then on the queue is closed - senders waiting for space
+// are released and told Ok (futures' poll_flush treats a closed channel as flushed), and any later submission (a second stop, a halt, a
+// consume) is refused. The loop future normally keeps the receiver until it ends, i.e. until `stopped()` has returned (or it fails).
+#[verifier::external_body]
+pub fn drop_mailbox<A>(s: PayloadStream<A>, Tracked(w): Tracked<&mut World>)
+    requires old(w).lc.ph is Stopped || old(w).lc.ph is Done || old(w).lc.ph is Failed,   // @ob loop.the-mailbox-stays-open-until-stopped-has-returned C04,C12,C17,C05,C02,C13
+    ensures same_world(old(w), final(w))
+{ unimplemented!() }
+// context.rs Context::weak_address / Context::address as seen from the loops (proved in unit ctx): whether they yield anything depends on
+// whether strong handles still exist, which the loop cannot know; they touch nothing
+#[verifier::external_body] #[verifier::accept_recursive_types(A)] pub struct WeakAddrV<A> { p: core::marker::PhantomData<A> }
+impl<A> Context<A> {
+    #[verifier::external_body] pub fn weak_address(&self) -> (r: Option<WeakAddrV<A>>) { unimplemented!() }
+    #[verifier::external_body] pub fn address(&self) -> (r: Option<Addr<A>>) { unimplemented!() }
+}
+// ghost acknowledgement: the strategy has been handed the dequeued restart request (a strategy that ignores restarts does nothing else).
+// `restart_pending` is set by dequeuing a restart request and must be cleared before the loop dequeues again: a loop arm that drops the
+// request without consulting the strategy leaves it set
+#[verifier::external_body]
+pub proof fn ack_restart_request(tracked w: &mut World)
+    requires old(w).lc.restart_pending
+    ensures *final(w) == (World { lc: Lc { restart_pending: false, ..old(w).lc }, ..*old(w) })
+{ unimplemented!() }
